@@ -10,7 +10,9 @@ cxx = False
 fixed_lines = 1
 link_extra = ("-Wl,--wrap=malloc", "-Wl,--wrap=free")
 rule = ("scripts = 'i reset' followed by identifier ops (new <size> | alloc <len> | node <len> | set k <hex|rep:hh:n|null> [len] | "
-        "copy k <j|null> | cmp k <bytes> [len] | ineq k j | free k | tinit <j|null> | tfini k); stream 1 = every triple "
+        "copy k <j|null> | cmp k <bytes> [len] | ineq k j | free k | tinit <j|null> | tfini k | setself k off len (name inside the "
+        "identifier's own content) | locate k pos name / next k name (mpt_node_locate/mpt_node_next over the list of node identifiers)); "
+        "second part: the C++ class mpt::identifier (xi new/copyctor/set/assign/equal/name/free); stream 1 = every triple "
         "(storage size in {16,17,20,32,64,128,256,300, identifier_new, node_new}, old length, new length in "
         "{0,1,max-2,max-1,max,max+1,300,65534,65535(,65536)}) x {set, copy from a second identifier of every other size, "
         "zero-pointer set} x compare/inequal/free; stream 2 = every history of length <= 4 (quick: 3, plus 4 over a reduced "
@@ -24,7 +26,7 @@ assumptions = [
     "mpt_identifier_compare with a zero name pointer is outside the property (the spec accepts any verdict there)",
 ]
 trusted = ["hand-written model MptModel/Impl/Ident.lean tied to mptcore/misc/identifier.c, node/node_new.c by harness/drv_ident.c",
-           "mpt++/identifier.cpp (C++ wrappers) and node/node_locate.c are outside the model"]
+           "mpt++/identifier.cpp is exercised as a second driver part against the same model (its methods are the C functions on this)"]
 
 
 def corpus(chk):
@@ -120,6 +122,124 @@ def _small():
             "i copy 0 1", "i copy 1 0", "i copy 0 0", "i tinit 0", "i ineq 0 1"]
 
 
+def _self_and_nodes(tier):
+    """names taken from the identifier's own content (overlapping copy), and node list searches by name"""
+    out = []
+    for kind in (("new", 16), ("new", 32), ("new", 64), ("node", 0), ("alloc", 100)):
+        mx = _cap(kind)
+        for ln in sorted({1, 2, 5, 8, 9, mx - 2, mx - 1, mx, mx + 1, mx + 9, 300}):
+            if ln < 1:
+                continue
+            for off in sorted({0, 1, 2, 4, 7, ln // 2, ln - 1, ln}):
+                for take in sorted({0, 1, ln - off - 1, ln - off, ln + 1 - off}):
+                    if take < 0 or off > ln:
+                        continue
+                    out.append(("self:%s%d:%d:%d:%d" % (kind[0], kind[1], ln, off, take),
+                                ["i reset", "i %s %d" % kind, "i set 0 %s" % _data(ln), "i setself 0 %d %d" % (off, take),
+                                 "i setself 0 0 %d" % max(0, take - 1), "i free 0"]))
+    # node lists: short/long/equal/prefix names; every start and position form
+    names = [_data(3), _data(19), _data(20), _data(21), "rep:61:100", "rep:61:101", _data(3), "rep:61:100", "-"]
+    lines = ["i reset"] + ["i node %d" % n for n in (0, 0, 30, 100, 0, 217, 0, 0, 0)]
+    lines += ["i set %d %s" % (k, nm) for k, nm in enumerate(names)]
+    probes = sorted(set(names)) + [_data(2), "rep:61:99", "rep:62:100", "6100"]
+    for start in range(9):
+        for pos in (1, 2, 3, 0, -1, -2):
+            for pr in probes:
+                if tier == "quick" and (start * 7 + pos + len(pr)) % 3:
+                    continue
+                lines.append("i locate %d %d %s" % (start, pos, pr))
+        for pr in probes + ["null"]:
+            lines.append("i next %d %s" % (start, pr))
+    lines += ["i set 3 null 100", "i locate 0 1 rep:00:99", "i locate 0 1 rep:00:100", "i free 4", "i locate 0 2 rep:61:100", "i locate 8 -1 %s" % _data(3),
+              "i locate 0 1 616263 2", "i locate 9 1 61", "i locate 0 21 61", "i locate 0 -0 61", "i locate 0 1 null", "i next 0", "i new 16", "i locate 9 1 61"]
+    lines += ["i free %d" % k for k in (0, 1, 2, 3, 5, 6, 7, 8, 9)]
+    out.append(("nodes:list", lines))
+    return out
+
+
+class _XX:
+    """second part: the C++ class mpt::identifier (mpt++/identifier.cpp) through harness/drvxx_ident.cpp"""
+    id = "C16"
+    area = "ident"
+    driver = "drvxx_ident"
+    cxx = True
+    fixed_lines = 1
+    link_extra = ("-Wl,--wrap=malloc", "-Wl,--wrap=free")
+
+    @staticmethod
+    def corpus(chk):
+        return [(n, s) for n, s in gen.corpus(id) if s and s[0].startswith("xi ")]
+
+    @staticmethod
+    def scripts(tier, seed, scale=1):
+        out = []
+        sizes = [16, 17, 32, 64, 256, 300]
+        for size in sizes:
+            mx = min(size - 4, 252)
+            lens = sorted({0, 1, 5, 9, mx - 1, mx, mx + 1, 300}) + ([65534, 65535] if size in (16, 256) else [])
+            for old in lens:
+                for new in lens:
+                    if tier == "quick" and old > 1000 and new > 1000 and size != 16:
+                        continue
+                    nd = _data(new, 0x62)
+                    out.append(("xx:set:%d:%d:%d" % (size, old, new),
+                                ["xi reset", "xi new %d" % size, "xi set 0 %s" % _data(old), "xi name 0", "xi set 0 %s" % nd, "xi name 0",
+                                 "xi equal 0 %s" % nd, "xi equal 0 %s" % _data(new, 0x63), "xi equal 0 %s" % _data(max(0, new - 1), 0x62),
+                                 "xi set 0 null %d" % min(new, 65535), "xi name 0", "xi free 0"]))
+                    if new <= 1000 or size == 16:
+                        out.append(("xx:copy:%d:%d:%d" % (size, old, new),
+                                    ["xi reset", "xi new %d" % size, "xi new 40", "xi set 0 %s" % _data(old), "xi set 1 %s" % nd, "xi assign 0 1",
+                                     "xi equal 0 %s" % nd, "xi copyctor 0", "xi copyctor 1", "xi name 2", "xi assign 1 2", "xi assign 2 2", "xi assign 3 0",
+                                     "xi set 1 %s" % _data(2, 0x70), "xi equal 2 %s" % nd, "xi free 1", "xi free 0", "xi name 3", "xi free 2", "xi free 3"]))
+        out.append(("xx:badop", ["xi reset", "xi new 15", "xi new 16", "xi copyctor 1", "xi copyctor null", "xi assign 0 null", "xi assign 0 1", "xi name 1",
+                                 "xi equal 0 null", "xi set 0 null", "xi frob", "xi free 0", "xi name 0"]))
+        r = gen.rng(id, tier, seed, "xx-random")
+        for k in range((150 if tier == "quick" else 2500) * scale):
+            lines = ["xi reset"]
+            caps = []
+            for _ in range(r.choice([1, 2, 3])):
+                sz = r.choice(sizes)
+                lines.append("xi new %d" % sz)
+                caps.append(min(sz - 4, 252))
+            live = list(range(len(caps)))
+            for _ in range(r.choice([5, 12, 25])):
+                if not live:
+                    break
+                a = r.choice(live)
+                mx = caps[a]
+                ln = max(0, r.choice([0, 1, 4, 5, 9, mx - 1, mx, mx + 1, mx + 8, 300, r.randrange(400)]))
+                kind = r.choice(["set", "set", "null", "assign", "assign", "copyctor", "equal", "name", "free"])
+                if kind == "set":
+                    lines.append("xi set %d %s%s" % (a, _data(ln, r.choice([0x61, 0x62])), r.choice(["", "", " -1"])))
+                elif kind == "null":
+                    lines.append("xi set %d null %d" % (a, r.choice([0, 0, ln])))
+                elif kind == "assign":
+                    lines.append("xi assign %d %d" % (a, r.choice(live)))
+                elif kind == "copyctor":
+                    if len(caps) < 12:
+                        lines.append("xi copyctor %d" % a)
+                        live.append(len(caps))
+                        caps.append(12)
+                elif kind == "equal":
+                    lines.append("xi equal %d %s" % (a, _data(ln, r.choice([0x61, 0x62]))))
+                elif kind == "name":
+                    lines.append("xi name %d" % a)
+                elif len(live) > 1:
+                    lines.append("xi free %d" % a)
+                    live.remove(a)
+            for a in live:
+                lines.append("xi free %d" % a)
+            out.append(("xxrnd:%d" % k, lines))
+        return out
+
+    nontrivial = staticmethod(lambda script, c_lines: nontrivial(script, c_lines))
+    tally = staticmethod(lambda chk, script, c_lines: tally(chk, script, c_lines))
+    finding_key = staticmethod(lambda script, res: finding_key(script, res))
+
+
+extra_parts = [_XX]
+
+
 def _random(tier, seed, scale):
     out = []
     n = (400 if tier == "quick" else 6000) * scale
@@ -146,7 +266,7 @@ def _random(tier, seed, scale):
             mx = caps[a]
             ln = r.choice([0, 1, 3, 4, 5, 8, 9, mx - 2, mx - 1, mx, mx + 1, mx + 7, 300, r.randrange(0, 400), 65534, 65535])
             ln = max(0, ln)
-            kind = r.choice(["set", "set", "set", "setn", "null", "copy", "copy", "copy", "cmp", "cmp", "ineq", "free", "tinit", "tfini", "bad"])
+            kind = r.choice(["set", "set", "set", "setn", "null", "copy", "copy", "copy", "cmp", "cmp", "ineq", "free", "tinit", "tfini", "bad", "self", "loc"])
             if kind == "set":
                 if ln <= 24:
                     dat = gen.hexs([r.choice([0x61, 0x62, 0xff, 0x80, 0x20, 0x00 if r.random() < 0.1 else 0x41]) for _ in range(ln)])
@@ -158,6 +278,11 @@ def _random(tier, seed, scale):
                 lines.append("i set %d %s %d" % (a, dat, r.choice([-1, 0, min(ln, 300), min(ln, 300) // 2])))
             elif kind == "null":
                 lines.append("i set %d null %d" % (a, r.choice([0, 0, ln, 65535, 65536])))
+            elif kind == "self":
+                lines.append("i setself %d %d %d" % (a, r.choice([0, 1, 2, 5]), r.choice([0, 1, 3, 8, ln])))
+            elif kind == "loc":
+                lines.append("i %s" % r.choice(["locate %d 1 %s" % (a, _data(min(ln, 300), 0x61)), "locate %d -1 %s" % (a, _data(min(ln, 300), 0x61)),
+                                               "locate %d 0 rep:61:%d" % (a, min(ln, 300)), "next %d rep:61:%d" % (a, min(ln, 300))]))
             elif kind == "copy":
                 lines.append("i copy %d %s" % (a, r.choice([str(x) for x in live] + ["null"])))
             elif kind == "cmp":
@@ -204,6 +329,7 @@ def scripts(tier, seed, scale=1):
                           "i set 0 61 2", "i set 0 61 -2", "i set 0 rep:6:3", "i set 0 rep:61:200001", "i cmp 0 null", "i copy 0", "i copy 0 1",
                           "i ineq 0 1", "i free 1", "i tinit 1", "i tfini 1", "i alloc 100001", "i node 100001", "q push 00", "i set 0 zero:3",
                           "i set 0 6162 1", "i free 0", "i set 0 61"]))
+    out += _self_and_nodes(tier)
     out += _random(tier, seed, scale)
     return out
 
